@@ -21,8 +21,13 @@ Definition check_irm (K : nat) (s : list (float * float)) (eps : float) (impl : 
   cmp_tol (tab K (irm FO fdiv K (cnth s) eps)) impl.
 Definition check_iam (K : nat) (s : list (float * float)) (eps : float) (impl : list float) : bool * float :=
   cmp_tol (tab K (iam FO fdiv K (cnth s) eps)) impl.
+(* the cosine of the phase difference is formed exactly by the model and through libm's angle/cos by the implementation
+   (cos(pi/2) = 6e-17, not 0); the factor |s|/(|y|+eps) (1e18 at a silent mixture point) amplifies that rounding, so the
+   absolute tolerance carries 2^-49 times the largest such factor *)
 Definition check_psm (K : nat) (s : list (float * float)) (eps : float) (impl : list float) : bool * float :=
-  cmp_tol (tab K (psm FO fdiv K (cnth s) eps)) impl.
+  let mixv := csumO FO K (cnth s) in
+  let amp := fold_right fmax 0%float (tab K (fun k => (cabs FO (cnth s k) / (cabs FO mixv + eps))%float)) in
+  cmpF rtol18 (rtol18 * scale_of impl + 0x1p-49 * amp)%float (tab K (psm FO fdiv K (cnth s) eps)) impl.
 Definition check_icm (K : nat) (s : list (float * float)) (impl : list (float * float)) : bool * float :=
   cmp_tol (cflat (tab K (icm FO fdiv K (cnth s)))) (cflat impl).
 
